@@ -13,9 +13,24 @@ def axis_chunks(D, n, family=None, max_blocks=8):
         return (0,)
     if n == 1 or max_blocks <= 1:
         return (n,)
-    fam = family or D.weighted([("single", 3), ("ones", 2), ("uniform", 4), ("irregular", 4), ("jitter", 2)])
+    fam = family or D.weighted([("single", 3), ("ones", 2), ("uniform", 4), ("irregular", 4), ("jitter", 2), ("sliver", 2 if n >= 6 and max_blocks >= 3 else 0)])
     if fam == "single":
         return (n,)
+    if fam == "sliver":
+        # a thin block (1-2 elements) right after a block at least twice as long as a window that just
+        # exceeds it, then the rest: the shape under which window kernels keep the block count but move the
+        # block boundaries
+        s = D.choice([1, 1, 2]) if n >= 9 else 1
+        a = D.int(2 * (s + 1), n - s - 1)
+        rest = n - a - s
+        out = (a, s)
+        if a - 2 * (s + 1) >= 1 and max_blocks >= 4 and D.bool():
+            p = D.int(1, a - 2 * (s + 1))
+            out = (p, a - p, s)
+        if rest >= 2 and len(out) + 2 <= max_blocks and D.bool():
+            q = D.int(1, rest - 1)
+            return out + (q, rest - q)
+        return out + (rest,)
     if fam == "ones":
         if n <= max_blocks:
             return (1,) * n
